@@ -401,7 +401,7 @@ pub fn prop() -> Prop<Case> {
     Prop {
         id: "C16",
         level: "exploration",
-        rule: "case = (options, tree with 1-5 symlinks aimed at sentinel files/directories beside the destination via ../ chains, absolute paths, '..', '/', '.', other names, and other symlinks of the tree (chains); destination absent/empty/pre-populated (with ordinary entries, or with only a lost+found directory); overwrite flag; optional subtree and exclude selection; optionally a later interrupted backup in which a directory was replaced by such a symlink, itself optionally preceded by another interrupted backup in which an entry had been removed (three stitched bands), restored by id; when the link leads to a sentinel directory that directory is given the sub-directory layout of the directory it replaces; the subtree is a third of the time exactly the replaced directory; in a quarter of the cases one of the first ten storage operations of the restore fails). Second phase when a directory was replaced by a symlink: the oldest version, in which it is a directory again, is restored with overwrite over the first restore, and the outside snapshot is compared again. Oracle: recursive lstat+content snapshot (mode, owner, mtime, ctime, inode) of the whole sandbox outside the destination is identical before and after; a pre-populated destination without overwrite must be refused and left identical. Non-trivial = a restored symlink resolves to a sentinel, or the refusal case with a non-empty version; distinct by case hash",
+        rule: "case = (options, tree with 1-5 symlinks aimed at sentinel files/directories beside the destination via ../ chains, absolute paths, '..', '/', '.', other names, and other symlinks of the tree (chains); destination absent/empty/pre-populated (with ordinary entries, or with only a lost+found directory); overwrite flag; optional subtree and exclude selection; optionally a later interrupted backup in which a directory was replaced by such a symlink, itself optionally preceded by another interrupted backup in which an entry had been removed (three stitched bands), restored by id; when the link leads to a sentinel directory that directory is given the sub-directory layout of the directory it replaces; the subtree is a third of the time exactly the replaced directory; in a quarter of the cases one of the first ten storage operations of the restore fails). Second phase when a directory was replaced by a symlink: the oldest version, in which it is a directory again, is restored with overwrite over the first restore, and the outside snapshot is compared again. Oracle: recursive lstat+content snapshot (mode, owner, mtime, ctime, inode) of the whole sandbox outside the destination is identical before and after; a pre-populated destination without overwrite must be refused and left identical. Non-trivial = a restored symlink resolves to a sentinel, or the refusal case with a non-empty version; distinct by case hash; since round 7 two cases of five put a second symlink beside the new one, named like it plus a suffix starting with a byte below '/' (.bak, -1, ' x', !), and the second phase also restores only the replaced directory with overwrite",
         assumptions: &[
             "pre-populated destinations contain only plain files and directories (a hostile destination containing symlinks is outside the statement)",
             "runs as root, so permission errors cannot mask a write-through",
